@@ -39,7 +39,8 @@ RULE = ("random path expressions (depth <= 4 quick / <= 6 thorough; iri, ^, /, |
         "literals, literal subjects, self-loops, 2- and 3-cycles), four bindings of the ends per case (given terms may be "
         "falsy or absent from the graph), driven through Graph.triples / subjects / objects / subject_objects / "
         "__contains__, Dataset (default_union on / off, named graph), ReadOnlyGraphAggregate over a split of the graph, "
-        "and SPARQL SELECT with constants or VALUES, also over a Dataset (union, default graph, GRAPH <g>); one case in twelve "
+        "and SPARQL SELECT with the ends given as constants, VALUES or initBindings, over a Graph, over a ReadOnlyGraphAggregate "
+        "of 2-3 member graphs (hops of a path in different members; also `(s, path, o) in aggregate`), also over a Dataset (union, default graph, GRAPH <g>); one case in twelve "
         "builds paths incrementally from shared sub-path objects with the operators / constructors and evaluates every object before "
         "and after it was used as an operand (constructors must not mutate operands), one in twelve has an EMPTY active graph (fresh, emptied after adds, empty default graph, empty registered named graph); the thorough tier first sweeps ALL 2^18 graphs over 3 nodes x 2 "
         "predicates (blocks of 128) against 24 fixed path shapes with the oracle (one shape per graph also against the "
@@ -60,12 +61,16 @@ FALSY = [4, 5, 6, 13]
 NO_SPARQL_TERM = {7}          # a blank node in a query is a variable
 GNAME = URIRef(E + "g1")
 
-ROUTES = ["triples", "so", "ds_union", "ds_default", "ds_named", "agg", "sparql_const", "sparql_values", "sparql_tree",
-          "sparql_ds_union", "sparql_ds_default", "sparql_ds_graph"]
+ROUTES = ["triples", "so", "ds_union", "ds_default", "ds_named", "agg", "in_agg", "in_ds", "sparql_const", "sparql_values",
+          "sparql_tree", "sparql_init", "sparql_ds_union", "sparql_ds_default", "sparql_ds_graph", "sparql_ds_init",
+          "sparql_agg", "sparql_agg_values", "sparql_agg_init"]
 FULL, DEFAULT, NAMED, AGG = 0, 1, 2, 3
 ROUTE_GRAPH = {"triples": FULL, "so": FULL, "ds_union": FULL, "ds_default": DEFAULT, "ds_named": NAMED, "agg": AGG,
-               "sparql_const": FULL, "sparql_values": FULL, "sparql_tree": FULL,
-               "sparql_ds_union": FULL, "sparql_ds_default": DEFAULT, "sparql_ds_graph": NAMED}
+               "in_agg": AGG, "in_ds": FULL,
+               "sparql_const": FULL, "sparql_values": FULL, "sparql_tree": FULL, "sparql_init": FULL,
+               "sparql_ds_union": FULL, "sparql_ds_default": DEFAULT, "sparql_ds_graph": NAMED, "sparql_ds_init": FULL,
+               "sparql_agg": AGG, "sparql_agg_values": AGG, "sparql_agg_init": AGG}
+GNAME2 = URIRef(E + "g2")
 
 
 # ------------------------------------------------------------------ paths
@@ -482,7 +487,8 @@ def gen_graph(rng):
         T.add((rng.choice(nodes), rng.choice(preds), rng.choice(nodes)))
     T = sorted(T)
     rng.shuffle(T)
-    return nodes, preds, [[s, p, o, rng.choice([0, 0, 1, 1, 2])] for s, p, o in T]
+    split = rng.choice([[0, 0, 1, 1, 2], [0, 1, 3], [0, 1, 1, 3, 3, 2]])
+    return nodes, preds, [[s, p, o, rng.choice(split)] for s, p, o in T]
 
 
 def pick_end(rng, nodes, used):
@@ -738,14 +744,17 @@ def gen_case(rng, tier, i):
     if rng.random() < 0.15:
         o = s
     ends = [[None, None], [s, None], [None, o], [s, o]]
-    routes = ["triples", "so", "agg"]
+    routes = ["triples", "so", "agg", "in_agg"]
     r = rng.random()
     if r < 0.5:
-        routes += ["ds_union", "ds_default", "ds_named"]
+        routes += ["ds_union", "ds_default", "ds_named", "in_ds"]
     if i % 2 == 0:
         routes += ["sparql_const", "sparql_values", "sparql_tree"]
         if "ds_union" in routes:
-            routes += ["sparql_ds_union", "sparql_ds_default", "sparql_ds_graph"]
+            routes += ["sparql_ds_union", "sparql_ds_default", "sparql_ds_graph", "sparql_ds_init"]
+        else:
+            # SPARQL over the composite graph: the hops of a path lie in different member graphs
+            routes += ["sparql_agg", "sparql_agg_values", "sparql_agg_init", "sparql_init"]
     return {"triples": T, "path": path, "ends": ends, "routes": routes, "style": rng.randint(0, 1)}
 
 
@@ -759,15 +768,20 @@ def _err(e):
     return "ParseError" if "Parse" in type(e).__name__ else "Other"
 
 
+def _third(case):
+    """triples held only by the third member graph / the second named graph (part 3)"""
+    return sorted({tuple(t[:3]) for t in case["triples"] if t[3] == 3})
+
+
 def _graphs(case):
     T = [tuple(t[:3]) for t in case["triples"]]
     full = sorted(set(T))
     dflt = sorted({tuple(t[:3]) for t in case["triples"] if t[3] in (0, 2)})
     named = sorted({tuple(t[:3]) for t in case["triples"] if t[3] in (1, 2)})
-    # 4th view, for the aggregate: the concatenation of the members (a shared triple occurs twice).  rdflib's
+    # 4th view, for the aggregate: the concatenation of its (three) members (a shared triple occurs twice).  rdflib's
     # aggregate de-duplicates such triples; the model is run on the concatenation on purpose — its theorems hold for
     # any list, and the answers (sets; duplicate-free lists for closures) must not depend on the multiplicity
-    return [full, dflt, named, dflt + named]
+    return [full, dflt, named, dflt + named + _third(case)]
 
 
 def _applicable(route, case, s, o, parts):
@@ -778,7 +792,11 @@ def _applicable(route, case, s, o, parts):
             return False
     if route == "sparql_tree" and "sparql_const" not in case["routes"]:
         return False
-    if route == "sparql_values":
+    if route in ("in_agg", "in_ds") and (s is None or o is None):
+        return False        # `(s, path, o) in graph`: both ends given
+    if route.endswith("_init") and s is None and o is None:
+        return False
+    if route in ("sparql_values", "sparql_agg_values"):
         used = {x for t in parts[FULL] for x in (t[0], t[2])}
         if (s is None and o is None) or any(x not in used for x in (s, o) if x is not None):
             return False
@@ -819,8 +837,21 @@ def _run_route(route, env, path_ast, s, o):
         return back((a, b) for a, _p, b in ng.triples((S, P, O)))
     if route == "agg":
         return back((a, b) for a, _p, b in env["agg"].triples((S, P, O)))
+    if route == "in_agg":
+        return [(s, o)] if (S, P, O) in env["agg"] else []
+    if route == "in_ds":
+        return [(s, o)] if (S, P, O) in env["ds_u"] else []
     txt = sparql_text(path_ast, env["style"])
     g = env["g"]
+    if route == "sparql_agg":
+        route, g = "sparql_const", env["agg"]
+    elif route == "sparql_agg_values":
+        route, g = "sparql_values", env["agg"]
+    if route in ("sparql_init", "sparql_agg_init", "sparql_ds_init"):
+        # the given ends arrive as initBindings: the pattern's variables are already bound when evalBGP runs
+        target = {"sparql_init": g, "sparql_agg_init": env.get("agg"), "sparql_ds_init": env.get("ds_u")}[route]
+        init = {v: x for v, x in (("s", S), ("o", O)) if x is not None}
+        return back((r[0], r[1]) for r in target.query("SELECT ?s ?o WHERE { ?s %s ?o }" % txt, initBindings=init))
     if route in ("sparql_const", "sparql_ds_union", "sparql_ds_default", "sparql_ds_graph"):
         pat = "%s %s %s" % ("?s" if s is None else _n3(s), txt, "?o" if o is None else _n3(o))
         if route == "sparql_ds_graph":
@@ -828,7 +859,7 @@ def _run_route(route, env, path_ast, s, o):
             pat = "GRAPH <%s> { %s }" % (GNAME, pat)
         q = "SELECT %s WHERE { %s }" % (" ".join(v for v, x in (("?s", s), ("?o", o)) if x is None) or "*", pat)
         target = {"sparql_const": g, "sparql_ds_union": env.get("ds_u"), "sparql_ds_default": env.get("ds_d"),
-                  "sparql_ds_graph": env.get("ds_d") if env["style"] else env.get("ds_u")}[route]
+                  "sparql_ds_graph": env.get("ds_d") if env["style"] else env.get("ds_u")}[route]  # g may be the aggregate
         res = target.query(q)
         if s is not None and o is not None:
             # no variable left: one empty solution per match (Result.__iter__ skips empty solutions, so count them)
@@ -869,18 +900,26 @@ def _build_env(case, parts):
     g = Graph()
     _fill(g, parts[FULL], ghost)
     env["g"] = g
-    if any(r.startswith("ds_") or r.startswith("sparql_ds") for r in case["routes"]):
+    third = _third(case)
+    if any(r.startswith("ds_") or r.startswith("sparql_ds") or r == "in_ds" for r in case["routes"]):
         for key, union in (("ds_u", True), ("ds_d", False)):
             ds = Dataset(default_union=union)
             _fill(ds.default_context if hasattr(ds, "default_context") else ds, parts[DEFAULT], ghost)
             ng = ds.graph(GNAME)
             _fill(ng, parts[NAMED], ghost)
+            if third:
+                _fill(ds.graph(GNAME2), third, ghost)
             env[key] = ds
-    if "agg" in case["routes"]:
+    if any(r == "agg" or r == "in_agg" or r.startswith("sparql_agg") for r in case["routes"]):
         g0, g1 = Graph(), Graph()
         _fill(g0, parts[DEFAULT], ghost)
         _fill(g1, parts[NAMED], ghost)
-        env["agg"] = ReadOnlyGraphAggregate([g0, g1])
+        members = [g0, g1]
+        if third or case.get("style"):      # a third member, possibly holding nothing
+            g2 = Graph()
+            _fill(g2, third, ghost)
+            members.append(g2)
+        env["agg"] = ReadOnlyGraphAggregate(members)
     return env
 
 
@@ -1229,5 +1268,6 @@ MATCHERS = {
     "neg_inverse_member": lambda c, r: bool(r["viol"]) and all(v.startswith("neginv:") for v in r["viol"]),
     "sparql_nps_inverse_raises": lambda c, r: _viol(r, "raise", "sparql") and _has(c["path"], lambda a: a[0] == "n" and bool(a[2])),
     "sparql_nps_empty_raises": lambda c, r: _viol(r, "raise", "sparql") and _has(c["path"], lambda a: a[0] == "n" and not a[1] and not a[2]),
+    "aggregate_contains_per_member": lambda c, r: _viol(r, "relation", "in_agg") and not _viol(r, "relation", "agg "),
     "aggregate_path_per_member": lambda c, r: c["routes"] == ["agg"] and (_viol(r, "dup", "agg") or _viol(r, "raise", "agg")),
 }
